@@ -302,6 +302,44 @@ def gen_constants():
     m = re.search(r"b'1'..=b'6'( if h != 0)? => \(h << 5\) \| \(\(u64::from\(ch\) & 0x0F\) - 1\)", text)
     if not m: die('digit arm of LocalNameHash::update not recognised')
     out.append('Definition HASH_DIGIT_NEEDS_PREFIX : bool := %s. (* src/html/local_name.rs *)' % ('true' if m.group(1) else 'false'))
+    # the setters' validators: forbidden bytes of names, closing shapes of comment text
+    def byte_set(rel, fn_name, name):
+        text = strip_comments(open(os.path.join(REPO, rel)).read())
+        i = text.find('fn ' + fn_name)
+        if i < 0: die(f'{fn_name} not found in {rel}')
+        body = text[i:i + 2500]
+        j = body.find('\n    }\n')
+        if j > 0: body = body[:j]
+        ms = re.findall(r"matches!\(\s*ch,\s*((?:b'(?:\\x[0-9A-Fa-f]{2}|\\.|[^'\\])'\s*\|?\s*)+)\)", body)
+        if len(ms) != 1: die(f'{fn_name}: expected exactly one matches!(ch, ...) byte set, found {len(ms)}')
+        vals = [byte_val(t) for t in re.findall(r"b'(?:\\x[0-9A-Fa-f]{2}|\\.|[^'\\])'", ms[0])]
+        out.append('Definition %s : list N := [%s]. (* %s, fn %s *)' % (name, '; '.join(str(v) for v in vals), rel, fn_name))
+    out.insert(2, 'From Coq Require Import List. Import ListNotations.')
+    byte_set('src/rewritable_units/tokens/attributes.rs', 'name_from_string', 'ATTR_NAME_FORBIDDEN')
+    byte_set('src/rewritable_units/element.rs', 'tag_name_bytes_from_str', 'TAG_NAME_FORBIDDEN')
+    text = strip_comments(open(os.path.join(REPO, 'src/rewritable_units/tokens/comment.rs')).read())
+    m = re.search(r'fn contains_comment_closing_sequence\(text: &str\) -> bool \{(.*?)\n\}', text, re.S)
+    if not m: die('contains_comment_closing_sequence not recognised')
+    body = m.group(1).strip()
+    terms = [t.strip() for t in body.split('||')]
+    infix, prefix = [], []
+    for t in terms:
+        mm = re.fullmatch(r'text\.(contains|starts_with)\(("([^"\\]*)"|\'([^\'\\])\')\)', t)
+        if not mm: die('contains_comment_closing_sequence: unrecognised term ' + t)
+        lit = mm.group(3) if mm.group(3) is not None else mm.group(4)
+        (infix if mm.group(1) == 'contains' else prefix).append('[' + '; '.join(str(ord(c)) for c in lit) + ']')
+    out.append('Definition COMMENT_BAD_INFIX : list (list N) := [%s]. (* src/rewritable_units/tokens/comment.rs *)' % '; '.join(infix))
+    out.append('Definition COMMENT_BAD_PREFIX : list (list N) := [%s].' % '; '.join(prefix))
+    # NthChild::has_index: the difference index - offset in i64 (exact) or with wrapping i32 arithmetic
+    text = strip_comments(open(os.path.join(REPO, 'src/selectors_vm/ast.rs')).read())
+    m = re.search(r'pub const fn has_index\(self, index: i32\) -> bool \{(.*?)\n    \}', text, re.S)
+    if not m: die('NthChild::has_index not found')
+    body = re.sub(r'\s+', ' ', m.group(1))
+    if 'let offsetted = index as i64 - offset as i64; let step = step as i64;' in body and 'offsetted.wrapping_rem(step) == 0' in body: wide = 'true'
+    elif 'let offsetted = index.wrapping_sub(offset);' in body and 'offsetted.wrapping_rem(step) == 0' in body: wide = 'false'
+    else: die('NthChild::has_index: arithmetic not recognised')
+    if 'if step == 0 { offsetted == 0 } else if (offsetted < 0 && step > 0) || (offsetted > 0 && step < 0) { false } else {' not in body: die('NthChild::has_index: case analysis not recognised')
+    out.append('Definition HAS_INDEX_WIDE : bool := %s. (* src/selectors_vm/ast.rs, NthChild::has_index *)' % wide)
     grab('src/rewriter/settings.rs', r'preallocated_parsing_buffer_size:\s*(\d+)', 'DEFAULT_PREALLOC')
     grab('src/parser/tree_builder_simulator/mod.rs', r'DEFAULT_NS_STACK_CAPACITY:\s*usize\s*=\s*(\d+)', 'DEFAULT_NS_STACK_CAPACITY')
     # TokenCaptureFlags bits
